@@ -15,7 +15,7 @@
    queued batch, or the futs of a running batch. *)
 From Coq Require Import List Arith NArith Bool.
 Import ListNotations.
-Require Import Aiuti.Case_Batcher Aiuti.Case_Batcher_Sound Aiuti.Batcher Aiuti.BatcherLimits Aiuti.BatcherTime Aiuti.BatcherInv Aiuti.BatcherProps.
+Require Import Aiuti.Case_Batcher Aiuti.Case_Batcher_Sound Aiuti.Case_Batcher_Basic Aiuti.Batcher Aiuti.BatcherLimits Aiuti.BatcherTime Aiuti.BatcherInv Aiuti.BatcherProps.
 
 (* No batch ever carries a key twice. *)
 Theorem no_dup_key_in_batch :
@@ -115,7 +115,35 @@ Theorem ret_timer_sound :
 Proof. exact ret_timer_sound_lemma. Qed.
 Print Assumptions ret_timer_sound.
 
-(* Monitor soundness, PARTIAL.  ok_C11 (Case_Batcher.v) judges the observed trace
+(* ... in particular the pop of an armed timer always finds its key. *)
+Theorem ret_pop_defined :
+  forall c evs, cfg_ok c -> Forall ev_ok evs ->
+  let s := snd (run c evs) in
+  forall dl k, In (dl, k) (rtimers s) -> lookup (ret s) k <> None.
+Proof. exact ret_pop_defined_lemma. Qed.
+Print Assumptions ret_pop_defined.
+
+(* The basic sub-monitor [ok_basic] (a conjunct of ok_C04, ok_C10 and ok_C11: per macro
+   step no TaskDied, every completion carries the script clock, no caller completes twice,
+   every batch is non-empty, carries no key twice and does not start in the script's
+   future) is COMPLETE — it accepts the canonical trace of the model for ALL
+   configurations and ALL event lists, so it cannot raise a false alarm on a case where
+   the implementation agrees with the model — and SOUND. *)
+Theorem monitor_basic_complete :
+  forall c evs w, cfg_ok c -> Forall ev_ok evs ->
+  ok_basic (BCase c evs (map canon (fst (run c evs))) w) = true.
+Proof. exact ok_basic_complete. Qed.
+Print Assumptions monitor_basic_complete.
+
+Theorem monitor_basic_sound :
+  forall c evs observed w, ok_basic (BCase c evs observed w) = true ->
+  forall os, In os observed ->
+    ~ In TaskDied os /\ NoDup (map (fun d => fst (fst d)) (dones_of os)) /\
+    forall b items t, In (BatchStart b items t) os -> 1 <= length items /\ NoDup (map fst items).
+Proof. exact ok_basic_sound. Qed.
+Print Assumptions monitor_basic_sound.
+
+(* Soundness of the full monitor, PARTIAL.  ok_C11 (Case_Batcher.v) judges the observed trace
    independently of the model.  Proved: acceptance implies that no observed batch
    carries a key twice.  NOT proved as theorems: the window conjuncts (a call inside the
    specification's window is answered in its own step with the remembered outcome, a
